@@ -329,6 +329,31 @@ func runC16Conc(c c16Case) evid.Outcome {
 func (w *c16Conc) final() {
 	c := w.c
 	h := w.hub
+	// The hub loop takes a connection out of its table first and out of its rooms right after, and
+	// empty queues do not show that it is between the two: re-read until connections and rooms
+	// agree, or until the budget of a non-blocking operation is used up (then the checks below
+	// report what persists).
+	agree := func() bool {
+		for _, conn := range w.conns {
+			if conn == nil {
+				continue
+			}
+			h.connMu.RLock()
+			isReg := h.connections[conn]
+			h.connMu.RUnlock()
+			for r := 0; r < c.Rooms; r++ {
+				room, ok := h.roomManager.GetRoom(c16Room(r))
+				has := ok && room.Has(conn)
+				if (!isReg && has) || (isReg && has != conn.IsInRoom(c16Room(r))) {
+					return false
+				}
+			}
+		}
+		return true
+	}
+	for deadline := time.Now().Add(c16W()); !agree() && time.Now().Before(deadline); {
+		time.Sleep(200 * time.Microsecond)
+	}
 	// which (connection, room) joins does the history contain at all?
 	everJoin := map[string]bool{}
 	note := func(i int, acts []c16Act) {
